@@ -13,6 +13,11 @@ pub enum KeyKind {
     Rsa2048,
     Rsa3072,
     Rsa4096,
+    /// below what either back end signs with
+    Rsa1024,
+    /// above ring's limit (4096 bits), within aws-lc-rs's (8192 bits)
+    Rsa6144,
+    Rsa8192,
 }
 
 #[derive(Clone, Copy, Debug, PartialEq, Eq, Hash)]
@@ -43,7 +48,19 @@ impl KeyKind {
         }
     }
     pub fn is_rsa(self) -> bool {
-        matches!(self, KeyKind::Rsa2048 | KeyKind::Rsa3072 | KeyKind::Rsa4096)
+        matches!(self, KeyKind::Rsa2048 | KeyKind::Rsa3072 | KeyKind::Rsa4096 | KeyKind::Rsa1024 | KeyKind::Rsa6144 | KeyKind::Rsa8192)
+    }
+    /// Keys left to the thorough tier where signing cost matters.
+    pub fn is_slow(self) -> bool {
+        matches!(self, KeyKind::Rsa3072 | KeyKind::Rsa4096 | KeyKind::Rsa6144 | KeyKind::Rsa8192)
+    }
+    /// Does this back end load and sign with keys of this kind at all?
+    pub fn backend_kind_ok(self) -> bool {
+        if cfg!(feature = "aws") {
+            self != KeyKind::Rsa1024
+        } else {
+            !matches!(self, KeyKind::P521 | KeyKind::Rsa1024 | KeyKind::Rsa6144 | KeyKind::Rsa8192)
+        }
     }
 }
 
@@ -75,9 +92,9 @@ pub fn spki_raw_pub(spki: &[u8]) -> Vec<u8> {
 
 pub fn backend_supports(kind: KeyKind, format: KeyFormat) -> bool {
     if cfg!(feature = "aws") {
-        true
+        kind.backend_kind_ok()
     } else if cfg!(feature = "ring") {
-        format == KeyFormat::Pkcs8 && kind != KeyKind::P521
+        format == KeyFormat::Pkcs8 && kind.backend_kind_ok()
     } else {
         false
     }
@@ -103,6 +120,12 @@ pub fn load_zoo() -> Vec<ZooKey> {
             KeyKind::Rsa3072
         } else if n.starts_with("rsa4096") {
             KeyKind::Rsa4096
+        } else if n.starts_with("rsa1024") {
+            KeyKind::Rsa1024
+        } else if n.starts_with("rsa6144") {
+            KeyKind::Rsa6144
+        } else if n.starts_with("rsa8192") {
+            KeyKind::Rsa8192
         } else {
             continue;
         };
